@@ -270,6 +270,54 @@ template <class NS> static void addresolves(int n, int m0max, bool fullD0) {
     }
 }
 
+
+// ---- part A4: larger structured problems (n up to 40 / 100): chains, stars, binary trees, braided DAGs, chains with equalities -----------------
+// The exhaustive instances never have more than a handful of constraints per block; the solvers' heaps of in/out constraints, time stamps,
+// long merge cascades and deep splits only come into play with many variables.  Every member of a parametric family: shape x size x desired
+// pattern x weights x scales x solver; oracle = Hildreth's dual ascent (oracle/qp.h), cross-checked against the active-set oracle on n = 8.
+template <class NS> static void families(bool thorough) {
+    ctx.phase(mcx::fmt("structured problems %s: {chain, star, binary tree, braid, chain with equalities} x n in {8,16,40(,100)} x 5 desired patterns x 2 weightings x 2 scalings, solve + two re-solves", NS::name()));
+    vector<int> sizes = {8, 16, 40}; if (thorough) sizes.push_back(100);
+    for (int shape = 0; shape < 5; shape++) for (int n : sizes) for (int dp = 0; dp < 5; dp++) for (int wv = 0; wv < 2; wv++) for (int sv = 0; sv < 2; sv++) {
+        if (ctx.stopped()) return; if (!ctx.next()) continue;
+        Inst I; I.n = n; I.w.assign(n, 1); I.sc.assign(n, 1); I.d.assign(n, 0);
+        for (int i = 0; i < n; i++) { if (wv) I.w[i] = 1 + (i % 3) * 3; if (sv) I.sc[i] = (i % 2) ? 2 : 0.5;
+            I.d[i] = dp == 0 ? (n - i) * 3.0 : dp == 1 ? 0 : dp == 2 ? ((i % 2) ? 10 : 0) : dp == 3 ? i * 0.5 : (double)((i * 7) % n); }
+        for (int i = 0; i < n; i++) {
+            if (shape == 0 && i + 1 < n) I.cs.push_back({i, i + 1, 2, false});
+            if (shape == 1 && i > 0) I.cs.push_back({0, i, 1.0 + (i % 3), false});
+            if (shape == 2) { if (2 * i + 1 < n) I.cs.push_back({i, 2 * i + 1, 2, false}); if (2 * i + 2 < n) I.cs.push_back({i, 2 * i + 2, 3, false}); }
+            if (shape == 3) { if (i + 1 < n) I.cs.push_back({i, i + 1, 1, false}); if (i + 3 < n) I.cs.push_back({i, i + 3, 4.5, false}); }
+            if (shape == 4 && i + 1 < n) I.cs.push_back({i, i + 1, 2, i % 3 == 1});
+        }
+        string desc = mcx::fmt("%s structured shape#%d n=%d desired#%d weights#%d scales#%d (%zu constraints)", NS::name(), shape, n, dp, wv, sv, I.cs.size());
+        ctx.count("states"); ctx.count("nontrivial"); ctx.sample(desc, 1);
+        typename NS::Vs vs; typename NS::Cs vc; for (int i = 0; i < n; i++) vs.push_back(new typename NS::V(i, I.d[i], I.w[i], I.sc[i])); for (auto &c : I.cs) vc.push_back(new typename NS::C(vs[c.l], vs[c.r], c.gap, c.eq));
+        vector<double> d = I.d; string hist = desc + " ops: solve";
+        try {
+            typename NS::Inc s(vs, vc);
+            for (int step = 0; step < 3; step++) {
+                if (step == 1) { for (int i = 0; i < n; i += 3) { d[i] = -20; vs[i]->desiredPosition = -20; } hist += " desired[every 3rd]:=-20 solve"; }
+                if (step == 2) { for (int i = 1; i < n; i += 2) { d[i] = 200 - i; vs[i]->desiredPosition = 200 - i; } hist += " desired[odd]:=200-i solve"; }
+                s.solve(); ctx.count("transitions");
+                vector<double> x; for (auto v : vs) x.push_back(v->finalPosition);
+                bool any = false; for (auto c : vc) any |= c->unsatisfiable;
+                if (P1) { if (any) ctx.violation("flag_on_feasible", {"structured"}, hist);
+                    for (size_t q = 0; q < vc.size(); q++) { double sl = I.sc[I.cs[q].r] * x[I.cs[q].r] - I.sc[I.cs[q].l] * x[I.cs[q].l] - I.cs[q].gap; if (I.cs[q].eq ? fabs(sl) > 1e-6 : sl < -1e-6) { ctx.violation("unsatisfied_constraint", {"structured"}, hist, cstr(I.cs[q]) + " slack=" + mcx::g(sl)); break; } }
+                    for (double v : x) if (!(v == v) || std::isinf(v)) { ctx.violation("nonfinite", {"structured"}, hist); break; } }
+                else if (!any) { vector<double> best;
+                    if (!oracle::qp_hildreth(n, d, I.w, I.sc, I.cs, best)) { ctx.count("oracle_not_converged"); continue; }
+                    if (n <= 8 && I.cs.size() <= 12) { vector<double> b2; if (oracle::qp_active_set(n, d, I.w, I.sc, I.cs, b2)) { double e2 = 0; for (int i = 0; i < n; i++) e2 = max(e2, fabs(b2[i] - best[i])); if (e2 > 1e-7) { fprintf(stderr, "MCX-ABORT: Hildreth and active-set oracles disagree by %g on %s\n", e2, hist.c_str()); exit(3); } } }
+                    double err = 0; for (int i = 0; i < n; i++) err = max(err, fabs(best[i] - x[i])); ctx.count("optimality_checks");
+                    if (!(err <= 1e-5 * 200)) ctx.violation("not_optimal", {"structured"}, hist, mcx::fmt("max |x - optimum| = %g", err)); }
+            }
+        } catch (vpsc::CriticalFailure &f) { ctx.library_abort(f.what(), hist); if (P1) ctx.violation("inc_throw", {"structured"}, hist, f.what()); }
+        catch (...) { if (P1) ctx.violation("inc_throw", {"structured"}, hist, "exception"); }
+        for (auto c : vc) delete c; for (auto v : vs) delete v;
+        ctx.done_case();
+    }
+}
+
 // ---- part B: histories on one live IncSolver --------------------------------------
 struct Op { int kind; int a; double v; SepC c; };   // 0 add c, 1 desired[a]:=v, 2 solve, 3 satisfy
 static string op_str(const Op &p) {
@@ -356,6 +404,7 @@ int main(int argc, char **argv) {
     if (!P1) { instances(2, 3, true, 0, true); instances(3, 2, true, 0, true); instances(3, 2, false, 1, true); }
     resolves<NSvpsc>(3, 3, {-1, 0, 2}, 1); resolves<NSvpsc>(4, 4, {1}, 2); resolves<NSavoid>(3, 3, {0, 2}, 2);
     addresolves<NSvpsc>(3, 2, false); addresolves<NSavoid>(3, 2, false);
+    families<NSvpsc>(T); families<NSavoid>(T);
     histories<NSvpsc>(3, 3, 0, false);
     histories<NSvpsc>(3, 4, 0, false);
     histories<NSvpsc>(3, 4, 1, false);
